@@ -20,6 +20,7 @@ import PyAbel.Model.Polynomial
 import PyAbel.Model.Recursions
 import PyAbel.Model.Profiles
 import PyAbel.Model.RbasexCache
+import PyAbel.Model.BasexCache
 import PyAbel.Gen.Tables
 open PyAbel PyAbel.Proto
 
@@ -155,6 +156,34 @@ def rbxHistory (ops : List String) : String :=
         | none => none
       | _ => none
   match go (RbxCache.St.init 0) ops [] with
+  | some lines => "ok " ++ " | ".intercalate lines
+  | none => "bad-op"
+
+/-- `bxcache <op>…`: ops `c:k:f:p` (call: basis id, forward 0/1, parameter id) and `x:all|forward|inverse` -/
+def bxHistory (ops : List String) : String :=
+  let o := fun (x : Option Nat) => match x with | some v => toString v | none => "-"
+  let show_ := fun (s : BxCache.St Nat Nat) =>
+    s!"bs={o s.bsPrm} trfprm={o s.trfPrm} trf={if s.trf.isSome then 1 else 0} triprm={o s.triPrm} tri={if s.tri.isSome then 1 else 0}"
+  let rec go (s : BxCache.St Nat Nat) (ops : List String) (acc : List String) : Option (List String) :=
+    match ops with
+    | [] => some acc.reverse
+    | op :: rest =>
+      match op.splitOn ":" with
+      | ["c", k, f, p] =>
+        match k.toNat?, f.toNat?, p.toNat? with
+        | some k, some f, some p =>
+          let (s', out) := BxCache.call s ⟨k, f == 1, p⟩
+          let t := match out with | some t => s!"ret:{t.1}:{t.2}" | none => "ret:-"
+          go s' rest (s!"{t} {show_ s'}" :: acc)
+        | _, _, _ => none
+      | ["x", sel] =>
+        let sel? : Option BxCache.Select := match sel with
+          | "all" => some .all | "forward" => some .forward | "inverse" => some .inverse | _ => none
+        match sel? with
+        | some sel => let s' := BxCache.cleanup s sel; go s' rest (s!"clean {show_ s'}" :: acc)
+        | none => none
+      | _ => none
+  match go BxCache.St.init ops [] with
   | some lines => "ok " ++ " | ".intercalate lines
   | none => "bad-op"
 
@@ -362,6 +391,7 @@ def handle (toks : List String) : String :=
   | "cache" :: module :: rest => cacheHistory module (splitOps rest)
   -- rbxcache op op …   →  history of rbasex's in-memory transform caches
   | "rbxcache" :: rest => rbxHistory rest
+  | "bxcache" :: rest => bxHistory rest
   -- hansen forward hold1 dr <row…>   →  hansenlaw_transform of one row (constants from Gen/Tables)
   | "hansen" :: fwd :: hold :: dr :: rest =>
     match parseBool fwd, parseBool hold, parseFloats [dr], parseFloats rest with
